@@ -154,6 +154,13 @@ func runFault(s FaultScript, v *vt.V) {
 		v.Failf("clean-eof-on-mismatch", "%s: read ended cleanly with %d bytes (sha %s) but the reader's descriptor says %s/%d", desc0, len(got), sha(got), desc.Digest, desc.Size)
 		return
 	}
+	if changed && !bytes.Equal(got, cor.sent) {
+		// the response was altered and the read ended cleanly: then the caller must at least have
+		// been given exactly what arrived (a client that silently drops or pads bytes hides the
+		// mismatch between the body and its Content-Length)
+		v.Failf("altered-body-silently-repaired", "%s: %d bytes arrived, the read ended cleanly with %d other bytes", desc0, len(cor.sent), len(got))
+		return
+	}
 	if requested != "" && string(desc.Digest) != requested {
 		v.Failf("digest-header-trusted-over-request", "%s: read of %s ended cleanly with %d bytes whose digest is %s", desc0, requested, len(got), desc.Digest)
 		return
